@@ -16,7 +16,7 @@ FAMILY = {
             "adaptive_transition_iff_adaptation_epoch", "tune_only_after_adaptation_epoch",
             "slow_tuning_iff_slow_epoch", "no_history_unless_asked",
             "history_is_this_epochs_stored_chain_length", "history_is_this_epochs_stored_chain_content",
-            "init_state_only_at_construction", "design_invariants", "tuning_times_are_the_end_times_of_the_adaptation_epochs", "no_action_matches",
+            "init_state_only_at_construction", "kernel_state_initialised_from_the_chains_own_model_state", "design_invariants", "tuning_times_are_the_end_times_of_the_adaptation_epochs", "no_action_matches",
             "sample_all_epochs_does_not_raise", "engine_unusable_after_a_chunk_mismatch",
             "sample_next_raises_iff_no_epoch_left_or_duration_not_a_multiple_of_the_chunk"},
     "C08": {"results_read_when_idle", "one_stored_chain_per_started_epoch",
@@ -29,7 +29,7 @@ FAMILY = {
     "C09": {"starts_from_state_left_by_predecessor", "blocks_only_written_by_their_own_kernel",
             "probe_wrote_expected_tag"},
     "C10": {"fresh_random_key_for_every_call", "keys_distinct_across_chains_and_calls",
-            "no_call_key_is_derived_from_another_calls_key"},
+            "no_call_key_is_derived_from_another_calls_key", "kernel_state_initialised_from_the_chains_own_model_state"},
     # C04's premise: the kernels of a sequence draw from independent streams
     "C04": {"fresh_random_key_for_every_call", "keys_distinct_across_chains_and_calls",
             "no_call_key_is_derived_from_another_calls_key"},
